@@ -49,7 +49,7 @@ class State:
 # ===========================================================================
 
 def h_peer_config(w, st, rec):
-    st.peer_cfg = {k: rec[k] for k in ("k", "slack", "y_as", "uniform") if k in rec}
+    st.peer_cfg = {k: rec[k] for k in ("k", "slack", "y_as", "uniform", "tail") if k in rec}
     peer().reset(st.peer_cfg)
     return "ok:-", None
 
@@ -238,6 +238,68 @@ def forest_identity(net, fitmsg):
     return ids
 
 
+class WeightsFollowed:
+    """Oracle 4c.  Every non-source value is drawn from the training responses with the probabilities the forest
+    returned for that row.  Over all rows of one sample, for a few sets of candidates defined by the weights alone
+    (the rows whose weight is at most theta * the largest weight of the row, theta in GRID; and the rows of largest
+    weight), the number of draws that fell into the set is compared with its expectation.  Two tests, both with a
+    false-alarm probability below 2**-64 under a correct implementation (union bound over the sets included):
+    (a) no draw at all from a set although prod(1 - mass) < 2**-68; (b) Azuma-Hoeffding: |X - E| >= t with
+    2 * exp(-2 t**2 / n) < 2**-68 / 12.  A value that occurs both inside and outside the set counts as either."""
+    GRID = (0.5, 0.1, 1e-2, 1e-3, 1e-4)
+
+    def __init__(self):
+        k = len(self.GRID) + 1
+        self.n = [0] * k
+        self.E = [0.0] * k
+        self.xmin = [0] * k
+        self.xmax = [0] * k
+        self.lognone = [0.0] * k
+        self.checkable = False
+
+    def add(self, wq, ycol, val):
+        wq = np.asarray(wq, dtype=float)
+        pos = wq > 0
+        tot = float(wq[pos].sum())
+        if not tot > 0 or not np.isfinite(tot):
+            return
+        mx = float(wq.max())
+        hit = pos & (ycol == val)
+        for s, th in enumerate(self.GRID + (None,)):
+            inset = (wq == mx) if th is None else (pos & (wq <= th * mx))
+            mass = float(wq[inset].sum()) / tot
+            if not 0.0 < mass < 1.0:
+                continue
+            self.n[s] += 1
+            self.E[s] += mass
+            self.lognone[s] += math.log1p(-mass)
+            possibly = bool((hit & inset).any())
+            if possibly:
+                self.xmax[s] += 1
+                if not bool((hit & ~inset).any()):
+                    self.xmin[s] += 1
+
+    def verdicts(self):
+        out = []
+        for s, th in enumerate(self.GRID + (None,)):
+            n = self.n[s]
+            if n == 0:
+                continue
+            name = "the rows of largest weight" if th is None else \
+                "the rows whose weight is at most %g times the largest weight of their row" % th
+            t = math.sqrt(n * 23.8)
+            if self.lognone[s] < -68 * math.log(2) or self.E[s] - t > 0 or self.E[s] + t < n:
+                self.checkable = True
+            if self.xmax[s] == 0 and self.lognone[s] < -68 * math.log(2):
+                out.append({"what": "the draws do not follow the weights returned by the forest: no value was ever "
+                                    "drawn from " + name, "rows": n, "expected_draws": round(self.E[s], 2)})
+            elif self.xmax[s] < self.E[s] - t or self.xmin[s] > self.E[s] + t:
+                out.append({"what": "the draws do not follow the weights returned by the forest: frequency of " + name,
+                            "rows": n, "expected_draws": round(self.E[s], 2),
+                            "observed_between": [self.xmin[s], self.xmax[s]], "tolerance": round(t, 2)})
+        return out[:1]
+
+
 def check_sample(w, st, nid, net, rec, S, msgs):
     """Oracles 1-4 for one returned sample, against the private copy and the peer's log.
     Returns the list of (cls, site, detail) found."""
@@ -324,6 +386,7 @@ def check_sample(w, st, nid, net, rec, S, msgs):
                                "(parents in increasing index order, variable) of one environment of this network",
                                "fitted_for_another_network": bool(other)}))
     positions = {}      # (env, var) -> for every row, which of the weighted candidates was drawn
+    follow = WeightsFollowed()
     for k in range(e):
         for i in range(p):
             pa = net["pa"][i]
@@ -358,6 +421,7 @@ def check_sample(w, st, nid, net, rec, S, msgs):
                             allowed[q] = set(fits[m[1]][3][:, 0][m[3][q] > 0].tolist())
                         if val in allowed[q]:
                             ok = True
+                            follow.add(m[3][q], fits[m[1]][3][:, 0], val)
                             if peer().uniform and net["unique"][k]:
                                 candidates = np.where(m[3][q] > 0)[0]
                                 Ycol = fits[m[1]][3][:, 0]
@@ -373,6 +437,11 @@ def check_sample(w, st, nid, net, rec, S, msgs):
                                             "synthetic parent values") if seen_row else
                                    "the forest was never queried with the final synthetic parent values of this row"}))
                     break
+    # 4c. the draws follow the weights the forest returned (not merely their support)
+    for what in follow.verdicts():
+        found.append(("predict_protocol", site, what))
+    if follow.checkable:
+        w.probes["non_source.weights_followed_checkable"] += 1
     # 4b. the draws of two non-source variables are independent of one another (given their parents): with
     #     equal weights on kk candidates, identical candidate positions in every row have probability kk**-n
     for k in range(e):
@@ -640,7 +709,7 @@ def execute(sempler, run_seed, ops, pristine_budget=2):
         w.record(rec, od)
         # what happened between seeded pairs
         tag = {"np.perturb": "rng", "py.random": "stdlib", "entropy.draw": "entropy", "lib.call": "lib",
-               "net.sample": "sample", "fault.scribble": "scribble", "gc": "gc"}.get(op)
+               "net.sample": "sample", "fault.scribble": "scribble", "gc": "gc", "py.import": "gc"}.get(op)
         if tag:
             for f in st.first.values():
                 if f["step"] != i:
@@ -757,7 +826,9 @@ def gen_config(g):
     return {"length": g.randint(6, 30) if not big else g.randint(5, 10),
             "pmax": g.randint(1, 6) if not big else g.randint(9, 13), "big": big,
             "nbig": g.random() < 0.04, "bursts": g.random() < 0.08, "nets": g.randint(1, 2) if not big else 1,
-            "peer": (lambda kk: {"k": kk, "slack": g.random() < 0.2, "uniform": kk >= 2 and g.random() < 0.5})(
+            "peer": (lambda kk: {"k": kk, "slack": g.random() < 0.2, "uniform": kk >= 2 and g.random() < 0.5,
+                                 # long-tailed weight rows: every other training row keeps a small positive weight
+                                 "tail": g.choice([0.2, 0.03, 3e-3, 5e-4, 5e-5]) if g.random() < 0.2 else 0})(
                 g.choice([1, 1, 2, 3, 4, 6])),
             "faults": faults, "fault_rate": g.choice([0.1, 0.2, 0.3]), "clients": g.randint(1, 3),
             "seeds": G.seed_alphabet(g)}
@@ -792,6 +863,8 @@ def generate(run_seed, deep=False):
     st = Streams(run_seed)
     g, sc = st["gen"], st["sched"]
     cfg = gen_config(g)
+    if cfg["peer"].get("tail") and not cfg["peer"]["uniform"] and g.random() < 0.75:
+        cfg["nbig"] = True          # long-tailed weights show in frequencies: ask for many rows
     cfg["deep"] = bool(deep) and st["deep"].random() < 0.5
     if bool(deep) and st["deep"].random() < 0.004:
         return cfg, generate_giant(st["deep"], cfg)
@@ -874,7 +947,11 @@ def generate(run_seed, deep=False):
             call = c13.gen_call(g, {"pmax": 3, "seeds": cfg["seeds"]}, api, g.choice(cfg["seeds"] + [None]))
             ops.append({"c": c, "op": "lib.call", "call": call})
         elif "gc" in faults:
-            ops.append({"c": c, "op": "gc"})
+            if g.random() < 0.3:
+                from .world import IMPORTABLE
+                ops.append({"c": c, "op": "py.import", "module": g.choice(IMPORTABLE)})
+            else:
+                ops.append({"c": c, "op": "gc"})
     return cfg, ops
 
 
